@@ -148,7 +148,8 @@ class CassetteFile(VirtualFileContainer):
         # Read any data blocks
         data, pointer = self.read_blocks(pointer)
 
-        if not data:
+        # A data block that carries no bytes is malformed; a file without any data block is just empty
+        if data is None:
             return None, pointer
 
         return CoCoFile(
@@ -190,6 +191,8 @@ class CassetteFile(VirtualFileContainer):
             elif block_type.hex() == "01":
                 data_length = NumericValue(self.buffer[pointer]).int
                 pointer += 1
+                if data_length == 0:
+                    return None, pointer
                 for block_data_pointer in range(data_length):
                     data.append(self.buffer[pointer + block_data_pointer])
                 pointer += data_length
